@@ -595,7 +595,10 @@ public:
         {
             len = length;
         }
-        std::memcpy(p, current_, len*sizeof(value_type));
+        if (len > 0) // current_ is null for a source over an empty buffer; memcpy requires valid pointers even for a zero size
+        {
+            std::memcpy(p, current_, len*sizeof(value_type));
+        }
         current_  += len;
         return len;
     }
